@@ -242,3 +242,16 @@ Example nonvacuous :
   read_pmt (packetise 481 ex_items) 481 = Ok (sec_result ex_sec).
 Proof. split; [exact ex_wf|]. split; [exact ex_items_wf|]. split; [vm_compute; reflexivity|].
   split; [exact ex_cuts|]. split; [discriminate|]. vm_compute. reflexivity. Qed.
+
+(* ---------- the common carrier (no preceding section): the unqualified forms of L3 and L4 ---------- *)
+Lemma no_inner_end c k : pre c = [] -> ~ inner_end c k.
+Proof. intros P (i & Hi & _). rewrite P in Hi. cbn in Hi. lia. Qed.
+Theorem done_prefix_no_pre c k : wf_carrier c -> pre c = [] -> k < len (ser_unit c) ->
+  done_func (takeN k (ser_unit c)) = Ok false.
+Proof. intros W P Hk. destruct (done_prefix c k W Hk) as (b & Hb & Hiff). rewrite Hb. f_equal.
+  destruct b; [|reflexivity]. exfalso. apply (no_inner_end c k P). apply Hiff. reflexivity. Qed.
+Theorem read_pmt_any_split c pid items :
+  wf_carrier c -> pre c = [] -> sstreams (sec c) <> [] -> Forall (wf_item pid) items ->
+  (exists n, concat (chunks items) = ser_unit c ++ repeatN 255 n) ->
+  read_pmt (packetise pid items) pid = Ok (sec_result (sec c)).
+Proof. intros W P NE WI EQ. apply read_pmt_ok; try assumption. apply cuts_ok_no_pre. exact P. Qed.
